@@ -345,4 +345,653 @@ theorem fromSolar_spec (A : Astro) (lo hi : Int) (h : AstroOK A lo hi) (s : Sola
     omega
   · exact (hc.recs r hr).2.2.2.1
 
+/-! ## adjacent tables -/
+
+/-- Prop form of the parts of `pairOk` the conversions use -/
+structure PairP (y : Int) (ms ms' : List MonthRec) : Prop where
+  fwd : ∀ r ∈ ms, r.year = y + 1 → overlapsCivil y r = true →
+    ∃ q, findMonth ms' (y + 1) r.month = some q ∧ q.first = r.first ∧ q.dayCount = r.dayCount
+  bwd : ∀ r ∈ ms', r.year = y → overlapsCivil (y + 1) r = true →
+    ∃ q, findMonth ms y r.month = some q ∧ q.first = r.first ∧ q.dayCount = r.dayCount
+  img1 : ∀ r ∈ ms, r.year = y → overlapsCivil (y + 1) r = true →
+    ∃ q, findMonth ms' y r.month = some q ∧ q.first = r.first ∧ q.dayCount = r.dayCount
+  img2 : ∀ r ∈ ms', r.year = y + 1 → overlapsCivil y r = true →
+    ∃ q, findMonth ms (y + 1) r.month = some q ∧ q.first = r.first ∧ q.dayCount = r.dayCount
+
+theorem pairP_of (y : Int) (ya ya' : YearAstro) (h : pairOk y ya ya' = true) : PairP y ya.months ya'.months := by
+  unfold pairOk pairImageOk at h
+  simp only [Bool.and_eq_true] at h
+  obtain ⟨⟨h1, h2, h3⟩, _⟩ := h
+  refine ⟨?_, ?_, fun r hr e o => recordsAgree_spec _ _ _ _ h2 r hr e o, fun r hr e o => recordsAgree_spec _ _ _ _ h3 r hr e o⟩
+  · intro r hr e o
+    split at h1
+    · simp only [Bool.and_eq_true] at h1
+      exact recordsAgree_spec _ _ _ _ h1.1 r hr e o
+    · unfold pairStructOk at h1
+      simp only [Bool.and_eq_true] at h1
+      exact recordsAgree_spec _ _ _ _ h1.1.1.1 r hr e rfl
+  · intro r hr e o
+    split at h1
+    · simp only [Bool.and_eq_true] at h1
+      exact recordsAgree_spec _ _ _ _ h1.2 r hr e o
+    · unfold pairStructOk at h1
+      simp only [Bool.and_eq_true] at h1
+      exact recordsAgree_spec _ _ _ _ h1.1.1.2 r hr e rfl
+
+theorem pairP_year (A : Astro) (lo hi : Int) (h : AstroOK A lo hi) (y : Int) (hlo : lo ≤ y) (hhi : y < hi) :
+    PairP y (A y).months (A (y + 1)).months := pairP_of _ _ _ (h.pair y hlo hhi)
+
+theorem pairP_pred (A : Astro) (lo hi : Int) (h : AstroOK A lo hi) (y : Int) (hlo : lo ≤ y - 1) (hhi : y ≤ hi) :
+    (∀ r ∈ (A y).months, r.year = y - 1 → overlapsCivil y r = true →
+      ∃ q, findMonth (A (y - 1)).months (y - 1) r.month = some q ∧ q.first = r.first ∧ q.dayCount = r.dayCount) ∧
+    (∀ r ∈ (A y).months, r.year = y → overlapsCivil (y - 1) r = true →
+      ∃ q, findMonth (A (y - 1)).months y r.month = some q ∧ q.first = r.first ∧ q.dayCount = r.dayCount) := by
+  have hp := pairP_year A lo hi h (y - 1) hlo (by omega)
+  have e1 : y - 1 + 1 = y := by omega
+  constructor
+  · intro r hr e o
+    exact hp.bwd r (by rw [e1]; exact hr) e (by rw [e1]; exact o)
+  · intro r hr e o
+    have := hp.img2 r (by rw [e1]; exact hr) (by rw [e1]; exact e) o
+    rw [e1] at this
+    exact this
+
+theorem overlaps_of_contains (s : Solar) (hv : s.valid = true) (r : MonthRec)
+    (r1 : r.first ≤ s.jdn) (r2 : s.jdn < r.first + r.dayCount) : overlapsCivil s.year r = true := by
+  obtain ⟨b1, b2⟩ := valid_in_year s hv
+  unfold overlapsCivil
+  simp only [Bool.and_eq_true, decide_eq_true_eq]
+  omega
+
+/-- a month of table `y` that holds a day of civil year `y` is found, with the same days, in the table of
+its own label year -/
+theorem canon (A : Astro) (lo hi : Int) (h : AstroOK A lo hi) (y : Int) (hlo : lo ≤ y) (hhi : y ≤ hi)
+    (r : MonthRec) (hr : r ∈ (A y).months) (ho : overlapsCivil y r = true) (hlo' : lo ≤ r.year) (hhi' : r.year ≤ hi) :
+    ∃ q, findMonth (A r.year).months r.year r.month = some q ∧ q.first = r.first ∧ q.dayCount = r.dayCount := by
+  have hc := coreP_year A lo hi h y hlo hhi
+  rcases (hc.recs r hr).2.2.1 with e | e | e
+  · have := (pairP_pred A lo hi h y (by omega) hhi).1 r hr e ho
+    rw [e]; exact this
+  · have := findMonth_self _ hc.distinct r hr
+    rw [e] at this ⊢
+    exact ⟨r, this, rfl, rfl⟩
+  · have hp := pairP_year A lo hi h y hlo (by omega)
+    have := hp.fwd r hr e ho
+    rw [e]; exact this
+
+/-- a month of table `L` labelled `L` that holds a day of civil year `Y` is found, with the same days, in table `Y` -/
+theorem image (A : Astro) (lo hi : Int) (h : AstroOK A lo hi) (L Y : Int) (hL : lo ≤ L ∧ L ≤ hi) (hY : lo ≤ Y ∧ Y ≤ hi)
+    (hYL : Y = L - 1 ∨ Y = L ∨ Y = L + 1) (m : MonthRec) (hm : m ∈ (A L).months) (hmy : m.year = L)
+    (ho : overlapsCivil Y m = true) :
+    ∃ q, findMonth (A Y).months L m.month = some q ∧ q.first = m.first ∧ q.dayCount = m.dayCount := by
+  rcases hYL with e | e | e
+  · subst e
+    exact (pairP_pred A lo hi h L (by omega) hL.2).2 m hm hmy ho
+  · subst e
+    have hc := coreP_year A lo hi h Y hL.1 hL.2
+    have := findMonth_self _ hc.distinct m hm
+    rw [hmy] at this
+    exact ⟨m, this, rfl, rfl⟩
+  · subst e
+    have hp := pairP_year A lo hi h L (by omega) (by omega)
+    exact hp.img1 m hm hmy ho
+
+/-! ## `fromYmdHms` -/
+
+theorem newSolar_inv (y m d h mi s : Int) (sol : Solar) (e : newSolar y m d h mi s = some sol) :
+    sol = ⟨y, m, d, h, mi, s⟩ ∧ validYmd y m d = true ∧ validHms h mi s = true := by
+  unfold newSolar at e
+  split at e
+  · rename_i c
+    rw [Bool.and_eq_true] at c
+    cases e
+    exact ⟨rfl, c.1, c.2⟩
+  · cases e
+
+theorem fromYmdHms_inv (A : Astro) (ly lm ld h mi s : Int) (l : Lunar)
+    (hl : Lunar.fromYmdHms A ly lm ld h mi s = some l) :
+    ∃ m sol, findMonth (A ly).months ly lm = some m ∧ 1 ≤ ld ∧ ld ≤ m.dayCount ∧
+      newSolar (solarOfJdn (m.first + (ld - 1))).year (solarOfJdn (m.first + (ld - 1))).month
+        (solarOfJdn (m.first + (ld - 1))).day h mi s = some sol ∧
+      l = computeAll ly lm ld h mi s sol
+        (if (solarOfJdn (m.first + (ld - 1))).year ≠ ly then A (solarOfJdn (m.first + (ld - 1))).year else A ly) := by
+  unfold Lunar.fromYmdHms at hl
+  simp only at hl
+  split at hl
+  · cases hl
+  · rename_i m hm
+    split at hl
+    · cases hl
+    · split at hl
+      · cases hl
+      · split at hl
+        · cases hl
+        · rename_i sol hsol
+          cases hl
+          exact ⟨m, sol, hm, by omega, by omega, hsol, rfl⟩
+
+theorem fromYmdHms_eq (A : Astro) (ly lm ld : Int) (m : MonthRec) (hm : findMonth (A ly).months ly lm = some m)
+    (h1 : 1 ≤ ld) (h2 : ld ≤ m.dayCount) (hf : 1721000 ≤ m.first) (sol : Solar) (hsv : sol.valid = true)
+    (hj : sol.jdn = m.first + (ld - 1)) :
+    Lunar.fromYmdHms A ly lm ld sol.hour sol.minute sol.second =
+      some (computeAll ly lm ld sol.hour sol.minute sol.second sol (A sol.year)) := by
+  have hn : 1721000 ≤ sol.jdn := by omega
+  obtain ⟨e1, e2, e3⟩ := solarOfJdn_jdn sol hsv hn
+  rw [hj] at e1 e2 e3
+  obtain ⟨n1, n2⟩ := newSolar_some sol.year sol.month sol.day sol.hour sol.minute sol.second
+    (valid_parts sol hsv).1 (valid_parts sol hsv).2
+  unfold Lunar.fromYmdHms
+  simp only [hm]
+  have c1 : ¬ ld < 1 := by omega
+  have c2 : ¬ ld > m.dayCount := by omega
+  simp only [c1, c2, if_false, e1, e2, e3, n1]
+  congr 2
+  split
+  · rfl
+  · rename_i c
+    have : sol.year = ly := by
+      false_or_by_contra
+      rename_i c'
+      exact c c'
+    rw [this]
+
+theorem fromYmd_fromSolar_gen (A : Astro) (lo hi : Int) (h : AstroOK A lo hi) (s : Solar) (hv : s.valid = true)
+    (hs : lo ≤ s.year ∧ s.year ≤ hi) (l : Lunar) (hl : Lunar.fromSolar A s = some l)
+    (hL : lo ≤ l.year ∧ l.year ≤ hi) :
+    Lunar.fromYmdHms A l.year l.month l.day s.hour s.minute s.second = some l := by
+  have hc := coreP_year A lo hi h s.year hs.1 hs.2
+  obtain ⟨r, hr, r1, r2, r3⟩ := fromSolar_core A s hv hc
+  rw [hl] at r3
+  cases r3
+  have hL' : lo ≤ r.year ∧ r.year ≤ hi := hL
+  obtain ⟨q, q1, q2, q3⟩ := canon A lo hi h s.year hs.1 hs.2 r hr (overlaps_of_contains s hv r r1 r2) hL'.1 hL'.2
+  have hrec := hc.recs r hr
+  exact fromYmdHms_eq A r.year r.month (s.jdn - r.first + 1) q q1 (by omega) (by omega) (by omega) s hv (by omega)
+
+/-- civil → lunar → rebuilt from (year, month, day, time) gives the SAME structure (path independence: every field, hence every getter) -/
+theorem fromYmd_fromSolar (A : Astro) (lo hi : Int) (h : AstroOK A lo hi) (s : Solar) (hv : s.valid = true)
+    (hy : 1 ≤ s.year) (hlo : lo < s.year) (hhi : s.year < hi) (l : Lunar) (hl : Lunar.fromSolar A s = some l) :
+    Lunar.fromYmdHms A l.year l.month l.day s.hour s.minute s.second = some l := by
+  have hc := coreP_year A lo hi h s.year (by omega) (by omega)
+  obtain ⟨r, hr, r1, r2, r3⟩ := fromSolar_core A s hv hc
+  have hrec := hc.recs r hr
+  have e : l.year = r.year := by rw [hl] at r3; cases r3; rfl
+  exact fromYmd_fromSolar_gen A lo hi h s hv ⟨by omega, by omega⟩ l hl (by rw [e]; omega)
+
+/-- a day held by a month of table `ly` lies in civil year `ly - 1`, `ly` or `ly + 1` -/
+theorem table_years (ly : Int) (ms : List MonthRec) (hc : CoreP ly ms) (m : MonthRec) (hm : m ∈ ms)
+    (sol : Solar) (hv : sol.valid = true) (m1 : m.first ≤ sol.jdn) (m2 : sol.jdn < m.first + m.dayCount) :
+    ly - 1 ≤ sol.year ∧ sol.year ≤ ly + 1 := by
+  obtain ⟨h0, l0, hh, hl, e1, e2⟩ := hc.ends
+  have hd : ∀ r ∈ ms, 1 ≤ r.dayCount ∧ r.dayCount ≤ 30 := fun r hr => by have := hc.recs r hr; omega
+  have s1 := chain_span ms h0 hc.chain hh hd m hm
+  have s2 := chain_span ms h0 hc.chain hh hd l0 (List.mem_of_getLast? hl)
+  rw [hc.len] at s1 s2
+  obtain ⟨b1, b2⟩ := valid_in_year sol hv
+  have d1 := jdn_dec31 ly
+  have d2 := jdn_dec31 sol.year
+  constructor
+  · false_or_by_contra
+    rename_i c
+    have y1 := yearStart_le (sol.year + 1) (ly - 1) (by omega)
+    have y2 := yearStart_mono 2 (ly - 1)
+    rw [show ly - 1 + ((2 : Nat) : Int) = ly + 1 by omega] at y2
+    omega
+  · false_or_by_contra
+    rename_i c
+    have y1 := yearStart_le (ly + 2) sol.year (by omega)
+    have y2 := yearStart_mono 2 ly
+    rw [show ly + ((2 : Nat) : Int) = ly + 2 by omega] at y2
+    omega
+
+theorem fromSolar_fromYmd_gen (A : Astro) (lo hi : Int) (h : AstroOK A lo hi) (ly lm ld hh mi ss : Int) (l : Lunar)
+    (hlo : lo < ly) (hhi : ly < hi) (hl : Lunar.fromYmdHms A ly lm ld hh mi ss = some l) :
+    l.solar.valid = true ∧ l.year = ly ∧ l.month = lm ∧ l.day = ld ∧
+    l.hour = hh ∧ l.minute = mi ∧ l.second = ss ∧ Lunar.fromSolar A l.solar = some l ∧
+    validHms hh mi ss = true ∧ ly - 1 ≤ l.solar.year ∧ l.solar.year ≤ ly + 1 := by
+  obtain ⟨m, sol, hm, d1, d2, hsol, rfl⟩ := fromYmdHms_inv A ly lm ld hh mi ss l hl
+  obtain ⟨mm, my, mmo⟩ := findMonth_some _ _ _ _ hm
+  have hc := coreP_year A lo hi h ly (by omega) (by omega)
+  have hrec := hc.recs m mm
+  obtain ⟨o1, o2⟩ := solarOfJdn_spec (m.first + (ld - 1)) (by omega)
+  obtain ⟨rfl, v1, v2⟩ := newSolar_inv _ _ _ _ _ _ _ hsol
+  obtain ⟨_, sv⟩ := newSolar_some _ _ _ _ _ _ v1 v2
+  generalize hsd : (Solar.mk (solarOfJdn (m.first + (ld - 1))).year (solarOfJdn (m.first + (ld - 1))).month
+    (solarOfJdn (m.first + (ld - 1))).day hh mi ss) = sol at sv ⊢
+  have ey : (solarOfJdn (m.first + (ld - 1))).year = sol.year := by rw [← hsd]
+  have ej : sol.jdn = m.first + (ld - 1) := by rw [← hsd]; exact o2
+  have eh : sol.hour = hh ∧ sol.minute = mi ∧ sol.second = ss := by rw [← hsd]; exact ⟨rfl, rfl, rfl⟩
+  rw [ey]
+  have hY := table_years ly _ hc m mm sol sv (by omega) (by omega)
+  have hcY := coreP_year A lo hi h sol.year (by omega) (by omega)
+  obtain ⟨q, q1, q2, q3⟩ := image A lo hi h ly sol.year ⟨by omega, by omega⟩ ⟨by omega, by omega⟩ (by omega) m mm my
+    (overlaps_of_contains sol sv m (by omega) (by omega))
+  obtain ⟨qm, qy, qmo⟩ := findMonth_some _ _ _ _ q1
+  obtain ⟨r, hr, r1, r2, r3⟩ := fromSolar_core A sol sv hcY
+  have hd : ∀ r ∈ (A sol.year).months, 1 ≤ r.dayCount := fun r hr => by have := hcY.recs r hr; omega
+  have hrq : r = q := pairwise_unique sol.jdn _ (chain_pairwise _ hcY.chain hd) r q hr qm r1 r2 (by omega) (by omega)
+  subst hrq
+  have eA : (if sol.year ≠ ly then A sol.year else A ly) = A sol.year := by
+    split
+    · rfl
+    · rename_i c
+      have : sol.year = ly := by
+        false_or_by_contra
+        rename_i c'
+        exact c c'
+      rw [this]
+  rw [eA]
+  refine ⟨sv, rfl, rfl, rfl, rfl, rfl, rfl, ?_, v2, hY.1, hY.2⟩
+  show Lunar.fromSolar A sol = _
+  rw [r3, qy, qmo, mmo, eh.1, eh.2.1, eh.2.2]
+  have : sol.jdn - r.first + 1 = ld := by omega
+  rw [this]
+
+/-- an accepted lunar triple denotes a civil day whose conversion returns it -/
+theorem fromSolar_fromYmd (A : Astro) (lo hi : Int) (h : AstroOK A lo hi) (ly lm ld hh mi ss : Int) (l : Lunar)
+    (hy : 2 ≤ ly) (hlo : lo < ly) (hhi : ly < hi) (hl : Lunar.fromYmdHms A ly lm ld hh mi ss = some l) :
+    l.solar.valid = true ∧ l.year = ly ∧ l.month = lm ∧ l.day = ld ∧
+    l.hour = hh ∧ l.minute = mi ∧ l.second = ss ∧ Lunar.fromSolar A l.solar = some l := by
+  obtain ⟨a1, a2, a3, a4, a5, a6, a7, a8, _⟩ := fromSolar_fromYmd_gen A lo hi h ly lm ld hh mi ss l hlo hhi hl
+  exact ⟨a1, a2, a3, a4, a5, a6, a7, a8⟩
+
+theorem fromYmdHms_time (A : Astro) (ly lm ld h mi s h' mi' s' : Int)
+    (hs : (Lunar.fromYmdHms A ly lm ld h mi s).isSome = true) (hv : validHms h' mi' s' = true) :
+    (Lunar.fromYmdHms A ly lm ld h' mi' s').isSome = true := by
+  obtain ⟨l, hl⟩ := Option.isSome_iff_exists.1 hs
+  obtain ⟨m, sol, hm, d1, d2, hsol, _⟩ := fromYmdHms_inv A ly lm ld h mi s l hl
+  obtain ⟨_, v1, _⟩ := newSolar_inv _ _ _ _ _ _ _ hsol
+  obtain ⟨n1, _⟩ := newSolar_some _ _ _ _ _ _ v1 hv
+  unfold Lunar.fromYmdHms
+  have c1 : ¬ ld < 1 := by omega
+  have c2 : ¬ ld > m.dayCount := by omega
+  simp only [hm, c1, c2, if_false, n1, Option.isSome_some]
+
+/-- the lunar constructor accepts exactly the triples that are the image of some civil day of a year inside
+the oracle's checked range (with an in-range time).  The statement without the range restriction on `s` is false
+for an arbitrary oracle (see the report: an oracle that is well-formed on lo..hi but arbitrary outside). -/
+theorem fromYmd_ok_iff_partial (A : Astro) (lo hi : Int) (h : AstroOK A lo hi) (ly lm ld hh mi ss : Int)
+    (hy : 2 ≤ ly) (hlo : lo < ly) (hhi : ly < hi) :
+    (Lunar.fromYmdHms A ly lm ld hh mi ss).isSome = true ↔
+      (validHms hh mi ss = true ∧ ∃ s : Solar, s.valid = true ∧ lo ≤ s.year ∧ s.year ≤ hi ∧
+         ∃ l, Lunar.fromSolar A s = some l ∧ l.year = ly ∧ l.month = lm ∧ l.day = ld) := by
+  constructor
+  · intro hs
+    obtain ⟨l, hl⟩ := Option.isSome_iff_exists.1 hs
+    obtain ⟨a1, a2, a3, a4, a5, a6, a7, a8, a9, a10, a11⟩ := fromSolar_fromYmd_gen A lo hi h ly lm ld hh mi ss l hlo hhi hl
+    exact ⟨a9, l.solar, a1, by omega, by omega, l, a8, a2, a3, a4⟩
+  · rintro ⟨hv, s, sv, s1, s2, l, hl, e1, e2, e3⟩
+    have := fromYmd_fromSolar_gen A lo hi h s sv ⟨s1, s2⟩ l hl (by omega)
+    rw [e1, e2, e3] at this
+    exact fromYmdHms_time A ly lm ld _ _ _ hh mi ss (by rw [this]; rfl) hv
+
+/-- the forward half of `fromYmd_ok_iff` holds exactly as stated -/
+theorem fromYmd_ok_imp (A : Astro) (lo hi : Int) (h : AstroOK A lo hi) (ly lm ld hh mi ss : Int)
+    (hy : 2 ≤ ly) (hlo : lo < ly) (hhi : ly < hi) :
+    (Lunar.fromYmdHms A ly lm ld hh mi ss).isSome = true →
+      (validHms hh mi ss = true ∧ ∃ s : Solar, s.valid = true ∧ ∃ l, Lunar.fromSolar A s = some l ∧
+         l.year = ly ∧ l.month = lm ∧ l.day = ld) := by
+  intro hs
+  obtain ⟨hv, s, sv, _, _, l, hl, e⟩ := (fromYmd_ok_iff_partial A lo hi h ly lm ld hh mi ss hy hlo hhi).1 hs
+  exact ⟨hv, s, sv, l, hl, e⟩
+
+/-- `fromYmd_ok_iff` exactly as stated, for an oracle that has no months outside the checked range
+(as the regenerated oracle `genAstro` outside 0..10000) -/
+theorem fromYmd_ok_iff_closed (A : Astro) (lo hi : Int) (h : AstroOK A lo hi)
+    (hout : ∀ y, (y < lo ∨ hi < y) → (A y).months = []) (ly lm ld hh mi ss : Int)
+    (hy : 2 ≤ ly) (hlo : lo < ly) (hhi : ly < hi) :
+    (Lunar.fromYmdHms A ly lm ld hh mi ss).isSome = true ↔
+      (validHms hh mi ss = true ∧ ∃ s : Solar, s.valid = true ∧ ∃ l, Lunar.fromSolar A s = some l ∧
+         l.year = ly ∧ l.month = lm ∧ l.day = ld) := by
+  constructor
+  · exact fromYmd_ok_imp A lo hi h ly lm ld hh mi ss hy hlo hhi
+  · rintro ⟨hv, s, sv, l, hl, e1, e2, e3⟩
+    by_cases c : lo ≤ s.year ∧ s.year ≤ hi
+    · exact (fromYmd_ok_iff_partial A lo hi h ly lm ld hh mi ss hy hlo hhi).2 ⟨hv, s, sv, c.1, c.2, l, hl, e1, e2, e3⟩
+    · have := hout s.year (by omega)
+      unfold Lunar.fromSolar at hl
+      simp only [this, findLunarYmd] at hl
+      cases hl
+      have : (0 : Int) = ly := e1
+      omega
+
+/-! ## injectivity -/
+
+/-- what `fromSolar` returns, with the canonical record (in the table of the lunar year) of the month -/
+theorem fromSolar_canon (A : Astro) (lo hi : Int) (h : AstroOK A lo hi) (s : Solar) (hv : s.valid = true)
+    (hlo : lo < s.year) (hhi : s.year < hi) (l : Lunar) (hl : Lunar.fromSolar A s = some l) :
+    ∃ q, findMonth (A l.year).months l.year l.month = some q ∧ q.first ≤ s.jdn ∧ s.jdn < q.first + q.dayCount ∧
+      l.day = s.jdn - q.first + 1 ∧ lo ≤ l.year ∧ l.year ≤ hi ∧ s.year - 1 ≤ l.year ∧ l.year ≤ s.year + 1 := by
+  have hc := coreP_year A lo hi h s.year (by omega) (by omega)
+  obtain ⟨r, hr, r1, r2, r3⟩ := fromSolar_core A s hv hc
+  rw [hl] at r3
+  cases r3
+  have hrec := hc.recs r hr
+  obtain ⟨q, q1, q2, q3⟩ := canon A lo hi h s.year (by omega) (by omega) r hr (overlaps_of_contains s hv r r1 r2)
+    (by omega) (by omega)
+  refine ⟨q, q1, by omega, by omega, ?_, ?_, ?_, ?_, ?_⟩
+  · show s.jdn - r.first + 1 = s.jdn - q.first + 1
+    omega
+  all_goals (show _ ≤ _; first | (show lo ≤ r.year; omega) | (show r.year ≤ hi; omega) | (show s.year - 1 ≤ r.year; omega) | (show r.year ≤ s.year + 1; omega))
+
+/-- two civil days with the same lunar (year, month, day) are the same day: the correspondence is one-to-one -/
+theorem lunarYmd_inj (A : Astro) (lo hi : Int) (h : AstroOK A lo hi) (s s' : Solar) (hv : s.valid = true) (hv' : s'.valid = true)
+    (hy : 1 ≤ s.year) (hy' : 1 ≤ s'.year) (hlo : lo < s.year) (hhi : s.year < hi) (hlo' : lo < s'.year) (hhi' : s'.year < hi)
+    (l l' : Lunar) (hl : Lunar.fromSolar A s = some l) (hl' : Lunar.fromSolar A s' = some l')
+    (he : l.year = l'.year ∧ l.month = l'.month ∧ l.day = l'.day) : (s.year, s.month, s.day) = (s'.year, s'.month, s'.day) := by
+  obtain ⟨q, q1, q2, q3, q4, _⟩ := fromSolar_canon A lo hi h s hv hlo hhi l hl
+  obtain ⟨q', q1', q2', q3', q4', _⟩ := fromSolar_canon A lo hi h s' hv' hlo' hhi' l' hl'
+  rw [he.1, he.2.1, q1'] at q1
+  cases q1
+  have hj : s.jdn = s'.jdn := by omega
+  obtain ⟨e1, e2, e3⟩ := jdn_inj_all _ _ _ _ _ _ (valid_parts s hv).1 (valid_parts s' hv').1 hj
+  rw [e1, e2, e3]
+
+/-! ## stepping -/
+
+/-- stepping n days on the lunar side = stepping n days on the civil side -/
+theorem next_eq (A : Astro) (l : Lunar) (n : Int) (s : Solar) (hs : l.solar.nextDay n = some s) :
+    l.next A n = Lunar.fromSolar A s := by
+  unfold Lunar.next
+  rw [hs]
+
+theorem next_inv (A : Astro) (l l1 : Lunar) (n : Int) (h : l.next A n = some l1) :
+    ∃ s1, l.solar.nextDay n = some s1 ∧ Lunar.fromSolar A s1 = some l1 := by
+  unfold Lunar.next at h
+  split at h
+  · cases h
+  · rename_i s1 hs1
+    exact ⟨s1, hs1, h⟩
+
+theorem next_next (A : Astro) (lo hi : Int) (h : AstroOK A lo hi) (s : Solar) (hv : s.valid = true) (l l1 l2 : Lunar) (a b : Int)
+    (hl : Lunar.fromSolar A s = some l) (h1 : l.next A a = some l1) (h2 : l1.next A b = some l2)
+    (hy : 1 ≤ s.year) (hy1 : 1 ≤ l1.solar.year) (hy2 : 1 ≤ l2.solar.year)
+    (hr : lo ≤ s.year ∧ s.year ≤ hi) (hr1 : lo ≤ l1.solar.year ∧ l1.solar.year ≤ hi) :
+    l.next A (a + b) = some l2 := by
+  have e0 := fromSolar_solar A s l hl
+  obtain ⟨s1, n1, f1⟩ := next_inv A l l1 a h1
+  obtain ⟨s2, n2, f2⟩ := next_inv A l1 l2 b h2
+  have e1 := fromSolar_solar A s1 l1 f1
+  have e2 := fromSolar_solar A s2 l2 f2
+  rw [e0] at n1
+  rw [e1] at n2 hy1
+  rw [e2] at hy2
+  have := nextDay_add s s1 s2 a b hv hy n1 hy1 n2 hy2
+  rw [next_eq A l (a + b) s2 (by rw [e0]; exact this)]
+  exact f2
+
+/-! ## order -/
+
+theorem coreP_pos (y : Int) (ms : List MonthRec) (hc : CoreP y ms) : ∀ r ∈ ms, 1 ≤ r.dayCount :=
+  fun r hr => by have := hc.recs r hr; omega
+
+/-- in one table a month with a smaller label year ends before a month with a larger one starts -/
+theorem same_table_order (y : Int) (ms : List MonthRec) (hc : CoreP y ms) (r q : MonthRec) (hr : r ∈ ms) (hq : q ∈ ms)
+    (hlt : r.year < q.year) : r.first + r.dayCount ≤ q.first := by
+  have hd := coreP_pos y ms hc
+  have hp := chain_pairwise ms hc.chain hd
+  have dr := hd r hr
+  have dq := hd q hq
+  by_cases c1 : r.first < q.first
+  · exact (pairwise_lt ms hp hd r q hr hq c1).1
+  · by_cases c2 : q.first < r.first
+    · have := (pairwise_lt ms hp hd q r hq hr c2).2
+      omega
+    · have e : r = q := pairwise_unique r.first ms hp r q hr hq (by omega) (by omega) (by omega) (by omega)
+      subst e
+      omega
+
+theorem pairP_pred_fwd (A : Astro) (lo hi : Int) (h : AstroOK A lo hi) (y : Int) (hlo : lo ≤ y - 1) (hhi : y ≤ hi) :
+    ∀ r ∈ (A (y - 1)).months, r.year = y → overlapsCivil (y - 1) r = true →
+      ∃ q, findMonth (A y).months y r.month = some q ∧ q.first = r.first ∧ q.dayCount = r.dayCount := by
+  have hp := pairP_year A lo hi h (y - 1) hlo (by omega)
+  have e1 : y - 1 + 1 = y := by omega
+  intro r hr e o
+  have := hp.fwd r hr (by rw [e1]; exact e) o
+  rw [e1] at this
+  exact this
+
+theorem civil_year_mono (s s' : Solar) (hv : s.valid = true) (hv' : s'.valid = true) (h : s.year < s'.year) :
+    s.jdn < s'.jdn := by
+  obtain ⟨_, b2⟩ := valid_in_year s hv
+  obtain ⟨b1', _⟩ := valid_in_year s' hv'
+  have := jdn_dec31 s.year
+  have := yearStart_le (s.year + 1) s'.year (by omega)
+  omega
+
+/-- a smaller lunar year means an earlier day -/
+theorem year_order (A : Astro) (lo hi : Int) (h : AstroOK A lo hi)
+    (s s' : Solar) (hv : s.valid = true) (hv' : s'.valid = true)
+    (hlo : lo < s.year) (hhi : s.year < hi) (hlo' : lo < s'.year) (hhi' : s'.year < hi)
+    (l l' : Lunar) (hl : Lunar.fromSolar A s = some l) (hl' : Lunar.fromSolar A s' = some l')
+    (hlt : l.year < l'.year) : s.jdn < s'.jdn := by
+  have hc := coreP_year A lo hi h s.year (by omega) (by omega)
+  have hc' := coreP_year A lo hi h s'.year (by omega) (by omega)
+  obtain ⟨r, hr, r1, r2, r3⟩ := fromSolar_core A s hv hc
+  obtain ⟨r', hr', r1', r2', r3'⟩ := fromSolar_core A s' hv' hc'
+  rw [hl] at r3; cases r3
+  rw [hl'] at r3'; cases r3'
+  have hlt' : r.year < r'.year := hlt
+  have hrec := hc.recs r hr
+  have hrec' := hc'.recs r' hr'
+  false_or_by_contra
+  rename_i hge
+  have hyy : s'.year ≤ s.year := by
+    false_or_by_contra
+    rename_i c
+    have := civil_year_mono s s' hv hv' (by omega)
+    omega
+  by_cases c : s'.year = s.year
+  · rw [c] at hr'
+    have := same_table_order _ _ hc r r' hr hr' hlt'
+    omega
+  · have e1 : s'.year = s.year - 1 := by omega
+    have e2 : r'.year = s.year := by omega
+    rw [e1] at hr'
+    have ho := overlaps_of_contains s' hv' r' r1' r2'
+    rw [e1] at ho
+    obtain ⟨q', q1, q2, q3⟩ := pairP_pred_fwd A lo hi h s.year (by omega) (by omega) r' hr' e2 ho
+    obtain ⟨qm, qy, _⟩ := findMonth_some _ _ _ _ q1
+    have := same_table_order _ _ hc r q' hr qm (by omega)
+    omega
+
+theorem labels_pairwise : ∀ (ms : List MonthRec), labelsDistinct ms = true →
+    ms.Pairwise (fun a b => ¬ (b.year = a.year ∧ b.month = a.month))
+  | [], _ => List.Pairwise.nil
+  | a :: rest, hd => by
+    simp only [labelsDistinct, Bool.and_eq_true, List.all_eq_true, Bool.not_eq_true', Bool.and_eq_false_iff,
+      beq_eq_false_iff_ne] at hd
+    rw [List.pairwise_cons]
+    refine ⟨?_, labels_pairwise rest hd.2⟩
+    intro b hb hh
+    rcases hd.1 b hb with e | e
+    · exact e hh.1
+    · exact e hh.2
+
+/-- in a list sorted by first day with distinct month numbers, the position of a month number follows the first day -/
+theorem pos_lt : ∀ (L : List MonthRec), L.Pairwise (fun a b => a.first < b.first) →
+    L.Pairwise (fun a b => b.month ≠ a.month) → ∀ q q', q ∈ L → q' ∈ L → q.first < q'.first →
+    ∃ i j, L.findIdx? (fun r => r.month == q.month) = some i ∧ L.findIdx? (fun r => r.month == q'.month) = some j ∧ i < j
+  | [], _, _, q, q', hq, _, _ => by simp at hq
+  | a :: rest, h1, h2, q, q', hq, hq', hlt => by
+    rw [List.pairwise_cons] at h1 h2
+    have hq'r : q' ∈ rest := by
+      rcases List.mem_cons.1 hq' with e | e
+      · subst e
+        rcases List.mem_cons.1 hq with e | e
+        · subst e; omega
+        · have := h1.1 q e; omega
+      · exact e
+    have hne' : (a.month == q'.month) = false := by
+      rw [beq_eq_false_iff_ne]
+      exact fun x => h2.1 q' hq'r x.symm
+    rw [List.findIdx?_cons, List.findIdx?_cons, hne']
+    rcases List.mem_cons.1 hq with e | e
+    · subst e
+      -- q' is found in the rest
+      have hex : ∃ j, rest.findIdx? (fun r => r.month == q'.month) = some j := by
+        cases hf : rest.findIdx? (fun r => r.month == q'.month) with
+        | some j => exact ⟨j, rfl⟩
+        | none =>
+          rw [List.findIdx?_eq_none_iff] at hf
+          have := hf q' hq'r
+          simp at this
+      obtain ⟨j, hj⟩ := hex
+      refine ⟨0, j + 1, by simp, by simp [hj], by omega⟩
+    · have hne : (a.month == q.month) = false := by
+        rw [beq_eq_false_iff_ne]
+        exact fun x => h2.1 q e x.symm
+      rw [hne]
+      obtain ⟨i, j, hi, hj, hij⟩ := pos_lt rest h1.2 h2.2 q q' e hq'r hlt
+      exact ⟨i + 1, j + 1, by simp [hi], by simp [hj], by omega⟩
+
+/-- positions of two months of the same lunar year, in that year's own table, follow their first days -/
+theorem monthPos_lt (A : Astro) (Y : Int) (hc : CoreP Y (A Y).months) (q q' : MonthRec)
+    (hq : q ∈ (A Y).months) (hq' : q' ∈ (A Y).months) (qy : q.year = Y) (qy' : q'.year = Y) (hlt : q.first < q'.first) :
+    ∃ i j, monthPos A Y q.month = some i ∧ monthPos A Y q'.month = some j ∧ i < j := by
+  have hd := coreP_pos Y _ hc
+  have hp := chain_pairwise _ hc.chain hd
+  have p1 : (monthsInYear (A Y).months Y).Pairwise (fun a b => a.first < b.first) := by
+    unfold monthsInYear
+    apply List.Pairwise.filter
+    refine List.Pairwise.imp_of_mem ?_ hp
+    intro a b ha hb hab
+    have := hd a ha
+    omega
+  have p2 : (monthsInYear (A Y).months Y).Pairwise (fun a b => b.month ≠ a.month) := by
+    unfold monthsInYear
+    refine List.Pairwise.imp_of_mem ?_ (List.Pairwise.filter _ (labels_pairwise _ hc.distinct))
+    intro a b ha hb hab e
+    rw [List.mem_filter, beq_iff_eq] at ha hb
+    exact hab ⟨by rw [ha.2, hb.2], e⟩
+  have m1 : q ∈ monthsInYear (A Y).months Y := by
+    unfold monthsInYear; rw [List.mem_filter, beq_iff_eq]; exact ⟨hq, qy⟩
+  have m2 : q' ∈ monthsInYear (A Y).months Y := by
+    unfold monthsInYear; rw [List.mem_filter, beq_iff_eq]; exact ⟨hq', qy'⟩
+  exact pos_lt _ p1 p2 q q' m1 m2 hlt
+
+/-- the conversion is monotone (no restriction to non-reform years is needed) -/
+theorem order_fwd (A : Astro) (lo hi : Int) (h : AstroOK A lo hi)
+    (s s' : Solar) (hv : s.valid = true) (hv' : s'.valid = true)
+    (hlo : lo < s.year) (hhi : s.year < hi) (hlo' : lo < s'.year) (hhi' : s'.year < hi)
+    (l l' : Lunar) (hl : Lunar.fromSolar A s = some l) (hl' : Lunar.fromSolar A s' = some l')
+    (hlt : s.jdn < s'.jdn) : lunarLt A l l' := by
+  unfold lunarLt
+  by_cases c1 : l.year < l'.year
+  · exact Or.inl c1
+  · by_cases c2 : l'.year < l.year
+    · have := year_order A lo hi h s' s hv' hv hlo' hhi' hlo hhi l' l hl' hl c2
+      omega
+    · have ey : l.year = l'.year := by omega
+      refine Or.inr ⟨ey, ?_⟩
+      obtain ⟨q, q1, q2, q3, q4, y1, y2, _⟩ := fromSolar_canon A lo hi h s hv hlo hhi l hl
+      obtain ⟨q', q1', q2', q3', q4', _⟩ := fromSolar_canon A lo hi h s' hv' hlo' hhi' l' hl'
+      rw [← ey] at q1'
+      by_cases cm : l.month = l'.month
+      · rw [← cm, q1] at q1'
+        cases q1'
+        exact Or.inr ⟨cm, by omega⟩
+      · refine Or.inl ?_
+        have hc := coreP_year A lo hi h l.year y1 y2
+        obtain ⟨qm, qy, qmo⟩ := findMonth_some _ _ _ _ q1
+        obtain ⟨qm', qy', qmo'⟩ := findMonth_some _ _ _ _ q1'
+        have hd := coreP_pos _ _ hc
+        have hp := chain_pairwise _ hc.chain hd
+        have dq := hd q qm
+        have dq' := hd q' qm'
+        have hfl : q.first < q'.first := by
+          false_or_by_contra
+          rename_i c
+          by_cases c3 : q'.first < q.first
+          · have := (pairwise_lt _ hp hd q' q qm' qm c3).1
+            omega
+          · have e : q = q' := pairwise_unique q.first _ hp q q' qm qm' (by omega) (by omega) (by omega) (by omega)
+            subst e
+            exact cm (by rw [← qmo, ← qmo'])
+        obtain ⟨i, j, hi, hj, hij⟩ := monthPos_lt A l.year hc q q' qm qm' qy qy' hfl
+        rw [qmo] at hi
+        rw [qmo'] at hj
+        rw [← ey]
+        exact ⟨i, j, hi, hj, hij⟩
+
+theorem lunarLt_asymm (A : Astro) (l l' : Lunar) (h1 : lunarLt A l l') (h2 : lunarLt A l' l) : False := by
+  unfold lunarLt at h1 h2
+  rcases h1 with a | ⟨ey, a⟩
+  · rcases h2 with b | ⟨ey', _⟩ <;> omega
+  · rcases h2 with b | ⟨ey', b⟩
+    · omega
+    · rcases a with ⟨i, j, hi, hj, hij⟩ | ⟨em, ed⟩
+      · rcases b with ⟨i', j', hi', hj', hij'⟩ | ⟨em', ed'⟩
+        · rw [hj] at hi'; rw [hi] at hj'
+          cases hi'; cases hj'
+          omega
+        · rw [ey', em', hi] at hj
+          cases hj
+          omega
+      · rcases b with ⟨i', j', hi', hj', hij'⟩ | ⟨em', ed'⟩
+        · rw [ey, em, hi'] at hj'
+          cases hj'
+          omega
+        · omega
+
+theorem lunarLt_irrefl (A : Astro) (l l' : Lunar) (ey : l.year = l'.year) (em : l.month = l'.month) (ed : l.day = l'.day)
+    (h1 : lunarLt A l l') : False := by
+  unfold lunarLt at h1
+  rcases h1 with a | ⟨_, ⟨i, j, hi, hj, hij⟩ | ⟨_, a⟩⟩
+  · omega
+  · rw [ey, em, hj] at hi
+    cases hi
+    omega
+  · omega
+
+/-- order, for every year of the checked range (reform years included) -/
+theorem lunar_order (A : Astro) (lo hi : Int) (h : AstroOK A lo hi)
+    (s s' : Solar) (hv : s.valid = true) (hv' : s'.valid = true)
+    (hlo : lo < s.year) (hhi : s.year < hi) (hlo' : lo < s'.year) (hhi' : s'.year < hi)
+    (l l' : Lunar) (hl : Lunar.fromSolar A s = some l) (hl' : Lunar.fromSolar A s' = some l') :
+    s.jdn < s'.jdn ↔ lunarLt A l l' := by
+  constructor
+  · exact order_fwd A lo hi h s s' hv hv' hlo hhi hlo' hhi' l l' hl hl'
+  · intro hlt
+    false_or_by_contra
+    rename_i c
+    by_cases c2 : s'.jdn < s.jdn
+    · exact lunarLt_asymm A l l' hlt (order_fwd A lo hi h s' s hv' hv hlo' hhi' hlo hhi l' l hl' hl c2)
+    · have hj : s.jdn = s'.jdn := by omega
+      obtain ⟨q, q1, q2, q3, q4, y1, y2, _⟩ := fromSolar_canon A lo hi h s hv hlo hhi l hl
+      obtain ⟨e1, e2, e3⟩ := jdn_inj_all _ _ _ _ _ _ (valid_parts s hv).1 (valid_parts s' hv').1 hj
+      have hc := coreP_year A lo hi h s.year (by omega) (by omega)
+      have hc' := coreP_year A lo hi h s'.year (by omega) (by omega)
+      obtain ⟨r, hr, r1, r2, r3⟩ := fromSolar_core A s hv hc
+      obtain ⟨r', hr', r1', r2', r3'⟩ := fromSolar_core A s' hv' hc'
+      rw [hl] at r3; cases r3
+      rw [hl'] at r3'; cases r3'
+      rw [← e1] at hr'
+      have hd := coreP_pos _ _ hc
+      have e : r = r' := pairwise_unique s.jdn _ (chain_pairwise _ hc.chain hd) r r' hr hr' r1 r2 (by omega) (by omega)
+      subst e
+      have ed : s.jdn - r.first + 1 = s'.jdn - r.first + 1 := by omega
+      exact lunarLt_irrefl A _ _ (Eq.refl r.year) (Eq.refl r.month) ed hlt
+
+/-- order: outside the two modelled reforms the conversion preserves order -/
+theorem lunar_order_partial (A : Astro) (lo hi : Int) (h : AstroOK A lo hi)
+    (hnr : ∀ y, lo ≤ y → y ≤ hi → isReformYear y = false)
+    (s s' : Solar) (hv : s.valid = true) (hv' : s'.valid = true) (hy : 1 ≤ s.year) (hy' : 1 ≤ s'.year)
+    (hlo : lo < s.year) (hhi : s.year < hi) (hlo' : lo < s'.year) (hhi' : s'.year < hi)
+    (l l' : Lunar) (hl : Lunar.fromSolar A s = some l) (hl' : Lunar.fromSolar A s' = some l') :
+    s.jdn < s'.jdn ↔ lunarLt A l l' :=
+  lunar_order A lo hi h s s' hv hv' hlo hhi hlo' hhi' l l' hl hl'
+
 end Model
+
+#print axioms Model.fromSolar_spec
+#print axioms Model.fromYmd_fromSolar
+#print axioms Model.fromSolar_fromYmd
+#print axioms Model.fromYmd_ok_iff_partial
+#print axioms Model.fromYmd_ok_imp
+#print axioms Model.fromYmd_ok_iff_closed
+#print axioms Model.lunarYmd_inj
+#print axioms Model.next_eq
+#print axioms Model.next_next
+#print axioms Model.lunar_order
+#print axioms Model.lunar_order_partial
